@@ -181,38 +181,48 @@ theorem c05_parallel_result_rtt {min max : Nat} {outs : List ROut} {r : List (Op
       simp at hg; omega
     subst this; exact hi
 
-/-- **Serial engine, full statement** (as the property reads): every slot of the serial engine
-    holds the earliest reply accepted for its TTL.  This is *false* of the code as it is, see
-    `c05_serial_first_wins_full_false`. -/
-def c05_serial_first_wins_full : Prop :=
-  ∀ (min max : Nat) (ws : List (List ROut)) (s : Slots),
-    serialLoop min max emptySlots ws = .ok s →
-    ∀ t, s t = firstAccepted (serialAccepted min max ws) t
+/-- **Serial engine, full statement**: for every list of per-TTL windows — replies may arrive
+    after their own window, duplicates with a larger delay included — each slot of the serial
+    engine follows the same rule as the parallel engine over the replies the engine accepted, in
+    order: the earliest reply accepted for the TTL, except that a destination reply replaces a
+    router reply.  (Before the `fix:` for finding F10 the serial engine overwrote the slot, and a
+    late duplicate replaced the reported RTT; the refutation of this statement for that code is
+    kept below as `c05_serial_overwrite_refuted`.) -/
+theorem c05_serial_first_wins {min max : Nat} {ws : List (List ROut)} {s : Slots}
+    (h : serialLoop min max emptySlots ws = .ok s) (t : Nat) :
+    (firstDest (serialAccepted min max ws) t = none →
+      s t = firstAccepted (serialAccepted min max ws) t) ∧
+    (∀ d, firstDest (serialAccepted min max ws) t = some d → s t = some d) ∧
+    (∀ q, firstAccepted (serialAccepted min max ws) t = some q → q.dest = true → s t = some q) := by
+  rw [serialLoop_merge h]
+  exact c05_parallel_first_wins _ t
 
 private def w1 : Probe := { ttl := 1, ip := [10, 0, 0, 1], rtt := 5000000, dest := false }
 private def w2 : Probe := { ttl := 2, ip := [10, 0, 0, 2], rtt := 7000000, dest := false }
 /-- a late duplicate of hop 2's reply, read in window 3 (RTT measured against probe 2) -/
 private def w2' : Probe := { ttl := 2, ip := [10, 0, 0, 2], rtt := 900000000, dest := false }
 
-/-- **Finding F10**: `results[probe.TTL] = probe` overwrites.  Witness: TTLs 1..3; windows 1 and 2
-    accept their own replies; a duplicate of hop 2's reply arrives in window 3: hop 2 then reports
-    900 ms instead of 7 ms, and window 3 is consumed (hop 3 stays empty). -/
-theorem c05_serial_first_wins_full_false : ¬ c05_serial_first_wins_full := by
-  intro h
-  have h2 := h 1 3 [[.accept w1], [.retry, .accept w2], [.accept w2']]
-    (serialWrite (serialWrite (serialWrite emptySlots w1) w2) w2') (by rfl) 2
-  revert h2
+/-- the slot rule the serial engine had before the fix for F10: `results[probe.TTL] = probe` -/
+def overwrite (s : Slots) (p : Probe) : Slots := fun t => if t = p.ttl then some p else s t
+
+/-- **Finding F10 (fixed)**: under the old rule the statement above is false.  Witness: TTLs 1..3;
+    windows 1 and 2 accept their own replies; a duplicate of hop 2's reply arrives in window 3:
+    hop 2 then reports 900 ms instead of 7 ms.  The correspondence stream `wire-ser-latedup` runs
+    this history (and random ones of its kind) against the real engine. -/
+theorem c05_serial_overwrite_refuted :
+    ([w1, w2, w2'].foldl overwrite emptySlots) 2 ≠ firstAccepted [w1, w2, w2'] 2 ∧
+    (merge [w1, w2, w2']) 2 = firstAccepted [w1, w2, w2'] 2 := by
   decide
 
-/-- **Serial engine, what holds** (under the restriction the serial engine is specified with in
-    C02: no reply arrives after its own window, i.e. the reply accepted in the window of TTL `k`
-    has TTL `k`): every slot holds the earliest reply accepted for its TTL — which is then the
-    only one — and empty slots are exactly the TTLs without an accepted reply. -/
-theorem c05_serial_first_wins_partial {min max : Nat} {ws : List (List ROut)} {s : Slots}
+/-- **Serial engine under the C02 restriction** (no reply arrives after its own window, i.e. the
+    reply accepted in the window of TTL `k` has TTL `k`): every slot holds the earliest reply
+    accepted for its TTL — which is then the only one, destination or not — and empty slots are
+    exactly the TTLs without an accepted reply. -/
+theorem c05_serial_first_wins_aligned {min max : Nat} {ws : List (List ROut)} {s : Slots}
     (hal : Aligned min max min ws) (h : serialLoop min max emptySlots ws = .ok s) :
     ∀ t, s t = firstAccepted (serialAccepted min max ws) t := by
   intro t
-  have := serialLoop_aligned ws min emptySlots s hal h t
+  have := serialLoop_aligned ws min emptySlots s hal (fun _ _ => rfl) h t
   rw [this]
   cases firstAccepted (serialAccepted min max ws) t <;> simp [emptySlots]
 
@@ -250,10 +260,10 @@ theorem c05_e2e {ε : Type} (runOnce : Nat → Nat → Except ε (List Hop)) (ma
 
 /-! ## non-vacuity -/
 
-/-- the F10 witness run end to end: the untimed serial engine returns hop 2 with the duplicate's
-    RTT and an empty hop 3 -/
+/-- the F10 witness history run end to end: the untimed serial engine keeps hop 2's first reply
+    (7 ms); window 3 was consumed by the duplicate, hop 3 stays empty -/
 example : serialRun 1 3 [[.accept w1], [.retry, .accept w2], [.accept w2']] false false =
-    .ok [some w1, some w2', none] := by rfl
+    .ok [some w1, some w2, none] := by rfl
 
 /-- the same replies under the parallel rule: hop 2 keeps 7 ms -/
 example : (merge [w1, w2, w2'] 2).map (·.rtt) = some 7000000 := by decide
@@ -281,7 +291,8 @@ example : rttOf 1000 400 = 600 := by decide
 #print axioms c05_rtt_nonneg
 #print axioms c05_parallel_first_wins
 #print axioms c05_parallel_result_rtt
-#print axioms c05_serial_first_wins_full_false
-#print axioms c05_serial_first_wins_partial
+#print axioms c05_serial_first_wins
+#print axioms c05_serial_overwrite_refuted
+#print axioms c05_serial_first_wins_aligned
 #print axioms c05_e2e
 end TRV.Props.C05
